@@ -134,20 +134,26 @@ case = json.load(sys.stdin)
 g = Prog.replay(case["steps"])
 v = g.vars[case["x"]]
 try:
-    why = vsame(v, v.da.compute())
+    if case.get("y") is not None:
+        w = g.vars[case["y"]]
+        a, b = dask.compute(v.da, w.da)
+        why = vsame(v, a) or vsame(w, b)
+    else:
+        why = vsame(v, v.da.compute())
     print("ISO:" + ("ok" if why is None else "mismatch:" + why))
 except Exception as e:
     print("ISO:raises:" + type(e).__name__ + ":" + str(e)[:200])
 """
 
 
-def isolated_verdict(steps, x):
-    """Run the sub-program alone in a fresh interpreter under the default configuration."""
+def isolated_verdict(steps, x, y=None):
+    """Run the sub-program alone in a fresh interpreter under the default configuration (the pair through dask.compute
+    when the failing action computed two collections together)."""
     env = dict(os.environ)
     env["PYTHONPATH"] = f"{VERIF}:{REPO}"
     env["PYTHONHASHSEED"] = "0"
     try:
-        p = subprocess.run([PY, "-c", ISO_CODE], input=json.dumps({"steps": steps, "x": x}), capture_output=True, text=True, timeout=120, env=env, cwd=VERIF)
+        p = subprocess.run([PY, "-c", ISO_CODE], input=json.dumps({"steps": steps, "x": x, "y": y}), capture_output=True, text=True, timeout=120, env=env, cwd=VERIF)
     except subprocess.TimeoutExpired:
         return "timeout"
     for ln in p.stdout.splitlines():
@@ -196,7 +202,7 @@ def do_action(pool, act, ctx, problems, hist_state):
         warm = (CountingCache.hits - hist_state["hits0"]) + (DEDUP["hits"] - hist_state["dedup0"]) > 0
         ctx.seen(sig, warm and multi and var.np.size > 0)
         if why:
-            problems.append((f"{label}_mismatch", f"action {act} -> {why}", f"history:{kind}:mismatch:{why.split()[0]}", var.id))
+            problems.append((f"{label}_mismatch", f"action {act} -> {why}", f"history:{kind}:mismatch:{why.split()[0]}", var.id, act.get("var2") if kind == "compute_pair" else None))
 
     try:
         with dask.config.set(cfg):
@@ -264,7 +270,7 @@ def do_action(pool, act, ctx, problems, hist_state):
         var = v
         if kind == "follow_on" and act.get("new_var") is not None:
             var = g.vars[act["new_var"]]
-        problems.append((f"{kind}_raises", f"action {act} raised {short_tb(e)}", f"history:{kind}:raise:{type(e).__name__}:{exc_site(e)}:{msg_key(e)}", var.id if var is not None else None))
+        problems.append((f"{kind}_raises", f"action {act} raised {short_tb(e)}", f"history:{kind}:raise:{type(e).__name__}:{exc_site(e)}:{msg_key(e)}", var.id if var is not None else None, act.get("var2") if kind == "compute_pair" else None))
 
 
 ACTIONS = ["compute", "compute", "compute_same_object", "optimize_compute", "persist_compute", "graph_then_compute", "compute_pair", "rebuild", "rebuild", "follow_on", "drop_gc"]
@@ -300,15 +306,19 @@ def run_history(pool, acts, ctx):
 
 def report(pool, acts, problems, ctx, case):
     seen = set()
-    for kind, msg, mech, vid in problems:
+    for kind, msg, mech, vid, vid2 in problems:
         if mech in seen:
             continue
         seen.add(mech)
         g = pool.g
         if vid is not None:
-            steps = g.closure(vid)
             z = "|zero_size" if closure_has_zero(g, g.vars[vid]) else ""
-            iso = isolated_verdict(steps, len(steps) - 1)
+            if vid2 is not None:
+                steps, remap = g.closure_multi([vid, vid2])
+                iso = isolated_verdict(steps, remap[vid], remap[vid2])
+            else:
+                steps = g.closure(vid)
+                iso = isolated_verdict(steps, len(steps) - 1)
             ctx.tab("isolated_verdicts", iso.split(":")[0])
             if not iso.startswith("ok"):
                 # the program fails on its own: not a history/configuration effect
